@@ -74,6 +74,11 @@ def attr_names():
 RECEIVERS = ['description', 'amount', 'date', 'txn', 'field', 'field.memo', 'rows', 'rows[0]', '"lit"', '1', '1.5', 'abs',
              'contains', 'txn.description', 'description.upper()', 'source', '[r for r in rows]', 'next(r for r in rows)',
              'month', 'tags', 'payments', 'category', 'threshold']
+MUTATORS = ['append', 'extend', 'insert', 'remove', 'pop', 'clear', 'sort', 'reverse', 'update', 'setdefault', 'popitem', 'add',
+            'discard', '__setitem__', '__delitem__', '__iadd__', '__imul__', '__setattr__', '__delattr__', 'copy']
+DATA_RECV = ['rows', 'rows[0]', 'field', 'txn', 'threshold', 'label', 'description', 'amount', 'date', '[r for r in rows]', 'lst',
+             'rows[0].item', 'field.memo']
+BINOPS = ['+', '-', '*', '/', '%']
 NODE_SNIPPETS = ["lambda: 1", "{1: 2}", "{1}", "[1]", "(1, 2)", "*rows", "f'{amount}'", "rows[0:1]", "1 if amount else 2", "rows[0]",
                  "amount is None", "amount | 1", "amount ** 2", "amount // 2", "+amount", "~1", "{x for x in rows}",
                  "{x: 1 for x in rows}", "[x for x in rows]", "(x for x in rows)", "(y := 1)", "amount > 1 > 0", "not amount",
@@ -106,6 +111,19 @@ def gen_texts(seed, tier):
         for r, a in pool:
             for sh in shapes:
                 texts.append(sh.format(r=r, a=a))
+    # input-mutation attempts: every mutator method on every data receiver, and every arithmetic operator between data receivers
+    for r in DATA_RECV:
+        for m in MUTATORS:
+            texts += [f'{r}.{m}()', f'{r}.{m}({r})', f'{r}.{m}(0)', f'{r}.{m}("item", 1)']
+    for a in DATA_RECV:
+        for b in DATA_RECV + ['[1]', '2', '"s"', '[r for r in rows]']:
+            for op in BINOPS:
+                texts.append(f'{a} {op} {b}')
+                texts.append(f'len({a} {op} {b})')
+    texts += ['(w := rows) + rows', 'sum([rows, rows], [])', 'sum(rows, rows)', 'max(rows + rows)', 'next(iter_of(rows))',
+              '[rows for r in rows][0] + rows', 'rows if rows else rows + rows', '(rows + rows)[0]', 'lst + [r.item for r in rows]',
+              'lst + lst', 'lst * 2', 'rows[0] == rows.pop()', '(rows := 1)', '(description := 1)', '(field := 1)', '(txn := 1)',
+              '[(rows := r) for r in rows]', '[r for rows in rows]', '[description for description in rows]']
     # node kinds x positions, depth 2
     for s in NODE_SNIPPETS:
         for c in CONTEXTS:
